@@ -2,7 +2,7 @@
 From Coq Require Import List NArith ZArith Bool Lia.
 From Common Require Import Bytes Outcome.
 From Gen Require Import C08.
-From C08 Require Import Model ModelCD ModelLL ModelSub ModelFL Proofs Proofs_cd Proofs_ll Proofs_ll3 Proofs_ll4 Proofs_sub Proofs_fl.
+From C08 Require Import Model ModelCD ModelLL ModelSub ModelSub2 ModelFL Proofs Proofs_cd Proofs_ll Proofs_ll3 Proofs_ll4 Proofs_sub Proofs_sub2 Proofs_sub3 Proofs_fl.
 Import ListNotations.
 Local Open Scope N_scope.
 
@@ -262,6 +262,23 @@ Theorem gsub2_1_3_1_roundtrip :
 Proof. exact gsubseq_roundtrip. Qed.
 Print Assumptions gsub2_1_3_1_roundtrip.
 
+(* GSUB 4.1: ligature sets, one per covered glyph; Gsub4_1.encode panics when
+   the coverage offset passes 65535 (original guard), the reader rejects the
+   same tables ("GSUB 4.1 too large") *)
+Theorem gsub4_1_len_agrees :
+  forall gl sets b, glyphs_ok gl = true ->
+    M_gsub41_encode (S_cov_table gl) sets = Ok b -> M_gsub41_len (S_cov_table gl) sets = Ok (lenN b).
+Proof. exact gsub41_len_agrees. Qed.
+
+Theorem gsub4_1_roundtrip :
+  forall gl sets b pre post,
+    strictly_inc gl = true -> glyphs_ok gl = true -> Forall (Forall lig_ok) sets ->
+    length sets = length gl ->
+    M_gsub41_encode (S_cov_table gl) sets = Ok b ->
+    M_gsub41_read (pre ++ b ++ post) (lenN pre) = Ok (S_cov_pairs gl, sets).
+Proof. exact gsub41_roundtrip. Qed.
+Print Assumptions gsub4_1_roundtrip.
+
 Theorem gpos1_1_len_agrees :
   forall gl adj b, glyphs_ok gl = true ->
     M_gpos11_encode (S_cov_table gl) adj = Ok b -> M_gpos11_len (S_cov_table gl) adj = Ok (lenN b).
@@ -290,6 +307,21 @@ Theorem gpos1_2_roundtrip :
       Ok (S_cov_pairs gl, map (vr_norm (vr_union adj)) adj).
 Proof. exact gpos12_roundtrip. Qed.
 Print Assumptions gpos1_2_roundtrip.
+
+(* GPOS 2.1: the map (left, right) -> PairAdjust grouped by the left glyph
+   (groups_ok: lefts and, per group, rights strictly increasing 16-bit glyphs,
+   no empty group).  Pair set offsets or pair counts beyond 16 bits panic
+   (fixes/C08-subtable-offset-guards.diff, C08-gpos21-pair-count.diff). *)
+Theorem gpos2_1_len_agrees :
+  forall gs b, glyphs_ok (map fst gs) = true ->
+    M_gpos21_encode gs = Ok b -> M_gpos21_len gs = Ok (lenN b).
+Proof. exact gpos21_len_agrees. Qed.
+
+Theorem gpos2_1_roundtrip :
+  forall gs b pre post, groups_ok gs -> M_gpos21_encode gs = Ok b ->
+    M_gpos21_read (pre ++ b ++ post) (lenN pre) = Ok (norm_groups gs).
+Proof. exact gpos21_roundtrip. Qed.
+Print Assumptions gpos2_1_roundtrip.
 
 (* coverage.ReadSet accepts whatever coverage.Read accepts and returns the
    same glyphs *)
